@@ -26,6 +26,10 @@ FAULTS = [
     ("AssertionError", "assert 1 == 2, 'assert {t}'"),
     ("LookupError-from-none", "try:\n    zz = int('x')\nexcept ValueError:\n    raise LookupError('translated {t}') from None"),
     ("LookupError-from-err", "try:\n    zz = int('x')\nexcept ValueError as err:\n    raise LookupError('translated {t}') from err"),
+    # the failing operation itself spans several source lines: Python names the line on which it starts
+    ("ZeroDivisionError-multiline", "zz = (1 /\n      (n -\n       n))"),
+    ("KeyError-multiline", "zz = {{'a': 1}}[\n    'k{t}'\n]"),
+    ("TypeError-multiline", "zz = len(\n    5,\n)"),
     ("LookupError-context", "try:\n    zz = {{}}['k{t}']\nexcept KeyError:\n    raise LookupError('while handling {t}')"),
 ]
 
@@ -64,7 +68,7 @@ def gen_program(R):
     use_mod = R.bool(1, 3)
     for d in range(depth - 1, -1, -1):
         last = d == depth - 1
-        style = R.choice(["plain", "plain", "multiline", "comp", "method"] + (["relay", "meter"] if use_mod else []) + ["recurse"]) if not last else "leaf"
+        style = R.choice(["plain", "plain", "multiline", "multicall", "comp", "method"] + (["relay", "meter"] if use_mod else []) + ["recurse"]) if not last else "leaf"
         if style == "method" and not use_class:
             style = "plain"
         styles.append(style)
@@ -90,6 +94,9 @@ def gen_program(R):
             callee = f"f{d + 1}(n + 1)"
             if style == "multiline":
                 body.append("r = (n +\n         1 +\n         " + callee + "\n         + 2)")
+            elif style == "multicall":
+                # the call itself is written over several lines
+                body.append(f"r = f{d + 1}(\n    n +\n    1,\n)")
             elif style == "comp":
                 body.append(f"r = [{callee} for q in [1]]")
             elif style == "relay":
@@ -232,8 +239,19 @@ def containment_files(case):
                 "    t = task.create(worker, n)", "    task.wait({t})", "    vrec('bad', 'ok', n, t.result())"]
     elif e == "load_time":
         bad += ["vrec('bad', 'loading')", exc_stmt, "@event_trigger('bad_ev')", "def victim(n=None, **kw):", "    vrec('bad', 'ok', n)"]
+    wrap = case.get("wrap")
+    files_extra = {}
+    if wrap and e in ("trigger_func", "time_trigger_func", "service", "done_callback", "task_create"):
+        deco_src = ["def passthru(f):", "    def wrapper(*a, **k):", "        return f(*a, **k)", "    return wrapper", ""]
+        if wrap == "module":
+            files_extra["modules/guards.py"] = "\n".join(["calls = 'module'"] + deco_src) + "\n"
+            bad = ["from guards import passthru"] + bad
+        else:
+            bad = deco_src + bad
+        i = bad.index(next(x for x in bad if x.startswith("def victim(")))
+        bad.insert(i, "@passthru")
     good = ["@event_trigger('good_ev')", "def good(n=None, **kw):", "    vrec('good', 'ok', n)", "@state_trigger('pyscript.v')", "def good_state(value=None, **kw):", "    vrec('good', 'state', str(value))"]
-    return {"bad.py": "\n".join(bad) + "\n", "good.py": "\n".join(good) + "\n"}
+    return dict({"bad.py": "\n".join(bad) + "\n", "good.py": "\n".join(good) + "\n"}, **files_extra)
 
 
 async def exec_containment(case):
@@ -397,7 +415,9 @@ class C18(ModelCheck):
     def gen(self, R):
         if R.bool(1, 8):
             seq = [R.int(0, 9) for _ in range(R.int(2, 6))]
-            return {"part": "B", "entry": R.choice(ENTRIES), "exc": R.choice(["ValueError", "ZeroDivisionError", "MyErr", "NameError"]), "legacy": R.bool(), "seq": seq}
+            return {"part": "B", "entry": R.choice(ENTRIES), "exc": R.choice(["ValueError", "ZeroDivisionError", "MyErr", "NameError"]), "legacy": R.bool(), "seq": seq,
+                    # the victim may be wrapped by an ordinary user-written decorator (defined in the file or imported from a module)
+                    "wrap": R.choice([None, None, "local", "module"])}
         src, meta = gen_program(R)
         return {"part": "A", "src": src, "meta": meta}
 
